@@ -1,6 +1,8 @@
 #!/bin/sh
 # usage: try_seed.sh <patch.diff> <check args...>   -- applies a seeded change to /repo, runs the check, reverts
 P=$1; shift
+# the revert at the end (git checkout -- .) would also discard a repair in progress: refuse to run on a dirty tree
+if [ -n "$(git -C /repo status --porcelain --untracked-files=no)" ]; then echo "try_seed: /repo has uncommitted changes; commit or revert them first" >&2; exit 4; fi
 git -C /repo apply "$P" || exit 3
 timeout 900 /verif/check "$@" 2>&1 | cut -c1-260 | head -25
 rc=$?
